@@ -1003,6 +1003,11 @@ class TokenizerAnalysis:
                     for fname, bit in (('strict', 2), ('drop', 4)):
                         flags = [f for f, v in q.flds.items() if v[0] == 'bool']
                     bools = {f: v[1] for f, v in q.flds.items() if v[0] == 'bool' and f not in getattr(s, 'kinds', {})}
+                    for f, v in q.flds.items():           # booleans kept as the components of a tuple field
+                        if v[0] == 'tuple':
+                            for i_, x in enumerate(v[1]):
+                                if isinstance(x, tuple) and x and x[0] == 'bool':
+                                    bools['%s[%d]' % (f, i_)] = x[1]
                     rec = dict(mode=mode, bool_fields=bools)
                     s.ctor_flags = getattr(s, 'ctor_flags', [])
                     s.ctor_flags.append(rec)
@@ -1033,6 +1038,11 @@ class TokenizerAnalysis:
             names = sorted(flagrecs[0])
             strict_f = [f for f in names if [flagrecs[mm][f] for mm in (0, 2, 4, 6)] == [False, True, False, True]]
             drop_f = [f for f in names if [flagrecs[mm][f] for mm in (0, 2, 4, 6)] == [False, False, True, True]]
-            s._ob(obs, alarms, ['C02', 'C03'], 'a boolean field equals bit 1 of mode (strict) and one equals bit 2 (drop)', [], bool(strict_f) and bool(drop_f), None, 'ctor', [], where0, None)
+            if strict_f and drop_f:
+                s._ob(obs, alarms, ['C02', 'C03'], 'a boolean field equals bit 1 of mode (strict) and one equals bit 2 (drop)', [], True, None, 'ctor', [], where0, None)
+            else:
+                # how the mode bits are kept is a representation choice: what they DO is decided per mode by the behaviour
+                # obligations (strict: C03 minimum length; drop: C01/C04 trailing silence), so nothing is demanded here
+                s.notes = getattr(s, 'notes', []) + ['mode bits not found as boolean fields (representation not recognised); decided through the per-mode obligations only']
             s.flag_fields = dict(strict=strict_f, drop=drop_f)
         return obs, alarms, spec_txt
